@@ -46,8 +46,8 @@ theorem C06_extracted (s0 : BSt) (h0 : StartF s0) (hg : s0.cfg.grace ≠ 0)
     (hc : s0.cfg.refreshAfterSample = Extracted.refreshAfterSample) (ops : List Op)
     (hp : GracePremise (runOps s0 ops)) (i : Nat) (st : Stmt) (f : Nat)
     (hst : st ∈ ((runOps s0 ops).th i).accepted) (hk : st.kind = .flush f) (hf : f ∈ (runOps s0 ops).flags)
-    (k : Nat) (hkr : k ∈ (runOps s0 ops).registry) (r : Stmt) (hrk : r ∈ ((runOps s0 ops).th k).accepted)
+    (k : Nat) (r : Stmt) (hrk : r ∈ ((runOps s0 ops).th k).accepted)
     (hlt : r.ts < st.ts) : r ∈ ((runOps s0 ops).th k).popped :=
-  C06_other_threads s0 h0 hg (hc.trans backendB_order_structure.1) ops hp i st f hst hk hf k hkr r hrk hlt
+  C06_other_threads s0 h0 hg (hc.trans backendB_order_structure.1) ops hp i st f hst hk hf k r hrk hlt
 
 end Obligations
